@@ -17,7 +17,7 @@ pub fn install_hook() {
             eprintln!("PANIC: {} at {:?}", msg, info.location());
         }
         if classify(&msg).0 == "count" {
-            LOCK_AT_VERIFY.store(injectorpp::interface::injector::__verif_lock_state() as i64, SeqCst);
+            LOCK_AT_VERIFY.store(crate::hook::lock_state() as i64, SeqCst);
         }
         if let Ok(mut l) = LAST.lock() {
             *l = msg;
